@@ -436,15 +436,18 @@ class SeqStream(HistoryStream):
             files = files_for(kind, names, nss)
             pre = [edit(f, True, 1 if kind == "choice" else 0) for f in files]
             # namespace 'x' by keyword argument, namespace 'y' by render context; request globals on name 'a'
-            # (all of them for the namespace-aware loader, keyword-argument requests only for the others)
+            # with the keyword-argument namespace
             reqs = [
                 req(n, kw, cx, mode, g)
                 for n in names
                 for kw, cx in (("x", None), (None, ["y"]))
                 for mode in ("sync", "async")
                 for g in (None, [[1, 5]])
-                if g is None or (n == "a" and ((kind == "ns" and L <= 3) or kw))
+                if g is None or (n == "a" and kw)
             ]
+            if L <= 3 and kind in ("dict", "choice"):
+                # quick tier: the second name only through the keyword-argument namespace
+                reqs = [r for r in reqs if r[1] == "a" or r[2]]
             if kind == "ns":
                 edits = [edit("x/a", True), edit("y/a", True)]
             elif kind == "choice":
